@@ -43,8 +43,9 @@ fn before_commit(ctx: &Ctx, s: &WriteSpec) {
             let _ = std::fs::remove_dir_all(ctx.cache.join("content-v2"));
         }
     }
-    if s.aged_hours > 0 {
-        let to = std::time::SystemTime::now() - std::time::Duration::from_secs(s.aged_hours as u64 * 3600);
+    if s.aged_hours != 0 {
+        let d = std::time::Duration::from_secs(s.aged_hours.unsigned_abs() as u64 * 3600);
+        let to = if s.aged_hours > 0 { std::time::SystemTime::now() - d } else { std::time::SystemTime::now() + d };
         if let Ok(rd) = std::fs::read_dir(ctx.cache.join("tmp")) {
             for e in rd.flatten() {
                 if let Ok(f) = std::fs::OpenOptions::new().write(true).open(e.path()) {
@@ -724,14 +725,14 @@ fn do_abandon_sync(ctx: &Ctx, s: &WriteSpec, at: AbandonAt) -> Out {
     let chunks = cut_chunks(&data, &s.chunks);
     let n = match at {
         AbandonAt::AfterChunks(n) | AbandonAt::MidFlight(n) | AbandonAt::CancelThenCommit(n) => n.min(chunks.len()),
-        AbandonAt::AfterFlush => chunks.len(),
+        AbandonAt::AfterFlush | AbandonAt::AfterShutdown => chunks.len(),
     };
     for ch in &chunks[..n] {
         if let Err(e) = sync_write_chunk(&mut w, ch) {
             return io_out(e);
         }
     }
-    if at == AbandonAt::AfterFlush {
+    if at == AbandonAt::AfterFlush || at == AbandonAt::AfterShutdown {
         if let Err(e) = w.flush() {
             return io_out(e);
         }
@@ -754,10 +755,20 @@ async fn do_abandon_async(ctx: &Ctx<'_>, s: &WriteSpec, at: AbandonAt) -> Out {
     let chunks = cut_chunks(&data, &s.chunks);
     let n = match at {
         AbandonAt::AfterChunks(n) | AbandonAt::MidFlight(n) | AbandonAt::CancelThenCommit(n) => n.min(chunks.len()),
-        AbandonAt::AfterFlush => chunks.len(),
+        AbandonAt::AfterFlush | AbandonAt::AfterShutdown => chunks.len(),
     };
     for ch in &chunks[..n] {
         if let Err(e) = async_write_chunk(&mut w, ch).await {
+            return io_out(e);
+        }
+    }
+    if at == AbandonAt::AfterShutdown {
+        // the end of the stream, as `io::copy` + `close` or a codec would signal it; not a commit
+        #[cfg(feature = "rt-async-std")]
+        let r = w.close().await;
+        #[cfg(feature = "rt-tokio")]
+        let r = w.shutdown().await;
+        if let Err(e) = r {
             return io_out(e);
         }
     }
@@ -891,7 +902,7 @@ pub fn other_fs_dir(scratch: &Path) -> PathBuf {
     PathBuf::from(root).join(format!("cvh-x.{}", std::process::id())).join(format!("{tag:016x}"))
 }
 
-fn prep_dest(ctx: &Ctx, dest: Dest) -> PathBuf {
+fn prep_dest(ctx: &Ctx, dest: Dest, by: &By) -> PathBuf {
     let n = ctx.dest_n.get();
     ctx.dest_n.set(n + 1);
     if dest == Dest::OtherFs {
@@ -917,6 +928,21 @@ fn prep_dest(ctx: &Ctx, dest: Dest) -> PathBuf {
     }
     if dest == Dest::Existing {
         std::fs::write(&p, PREEXISTING).expect("prepare destination");
+    }
+    if dest == Dest::LinkOfContent {
+        // found with the harness's own reader of the format, not through the library
+        let cp = match by {
+            By::Addr(a) => Some(ctx.content_path(*a)),
+            By::Key(k) => {
+                let bucket = reffmt::bucket_path(&ctx.cache, ctx.key(*k));
+                std::fs::read(bucket).ok().and_then(|b| reffmt::lookup(&b, ctx.key(*k))).and_then(|r| r.integrity).and_then(|i| blob::sri_address(&i)).filter(|(_, hex)| hex.len() > 4).map(|(algo, hex)| reffmt::content_path(&ctx.cache, algo, &hex))
+            }
+        };
+        if let Some(cp) = cp {
+            if std::fs::symlink_metadata(&cp).map(|m| m.file_type().is_file()).unwrap_or(false) {
+                let _ = std::fs::hard_link(&cp, &p);
+            }
+        }
     }
     p
 }
@@ -1027,7 +1053,7 @@ fn do_sync(ctx: &Ctx, op: &Op) -> Out {
         Op::Exists { addr } => Out::Bool(cacache::exists_sync(cache, &ctx.integrity_of(*addr))),
         Op::List | Op::IdxLs => list_out(cache),
         Op::Extract { kind, checked, by, dest } => {
-            let to = prep_dest(ctx, *dest);
+            let to = prep_dest(ctx, *dest, by);
             win_begin();
             let r: cacache::Result<Option<u64>> = match (kind, checked, by) {
                 (XKind::Copy, true, By::Key(k)) => cacache::copy_sync(cache, ctx.key(*k), &to).map(Some),
@@ -1129,7 +1155,7 @@ async fn do_async(ctx: &Ctx<'_>, op: &Op) -> Out {
             if sync_only {
                 return do_sync(ctx, op);
             }
-            let to = prep_dest(ctx, *dest);
+            let to = prep_dest(ctx, *dest, by);
             win_begin();
             let r: cacache::Result<Option<u64>> = match (kind, checked, by) {
                 (XKind::Copy, true, By::Key(k)) => cacache::copy(cache, ctx.key(*k), &to).await.map(Some),
@@ -1254,6 +1280,15 @@ fn do_link_sync(ctx: &Ctx, l: &LinkSpec) -> Out {
                         }
                         continue;
                     }
+                    if n == usize::MAX - 1 {
+                        // exactly as many bytes as were declared (or the file has)
+                        let want = declared_size(l.declare, data.len()).unwrap_or(data.len()).min(data.len());
+                        let mut exact = vec![0u8; want];
+                        if let Err(e) = lk.read_exact(&mut exact) {
+                            return io_out(e);
+                        }
+                        continue;
+                    }
                     let mut buf = vec![0u8; n.max(1)];
                     let r = if l.vectored_reads && buf.len() >= 2 {
                         let (a, b) = buf.split_at_mut(n.max(2) / 2);
@@ -1297,6 +1332,14 @@ async fn do_link_async(ctx: &Ctx<'_>, l: &LinkSpec) -> Out {
                         // the runtime's own read_to_end (it hands over partly filled buffers)
                         let mut all = Vec::with_capacity(16);
                         if let Err(e) = lk.read_to_end(&mut all).await {
+                            return io_out(e);
+                        }
+                        continue;
+                    }
+                    if n == usize::MAX - 1 {
+                        let want = declared_size(l.declare, data.len()).unwrap_or(data.len()).min(data.len());
+                        let mut exact = vec![0u8; want];
+                        if let Err(e) = lk.read_exact(&mut exact).await {
                             return io_out(e);
                         }
                         continue;
